@@ -24,6 +24,46 @@ NEIGHBOURS = [{"from": "C13", "limit": 400, "why": "messages of async callables 
               {"from": "C07", "limit": 500, "why": "the values are collected without disturbing the violation itself"}]
 
 
+SHADOWING = [
+    (["x"], ["x", "y"], "x > y", {"x": 5, "y": 1}),
+    (["x"], ["x", "GL"], "x > GL", {"x": 5, "GL": -100}),
+    (["x", "s"], ["x", "s", "cl"], "len(s) > cl", {"x": 5, "s": "abc", "cl": "zz"}),
+    (["x"], ["x", "y", "cl"], "x + cl > y", {"x": 5, "y": 0, "cl": 0}),
+    (["xs"], ["xs", "y"], "all(e > y for e in xs)", {"xs": [1, 2], "y": 0}),
+    (["xs"], ["xs", "GL", "y"], "[e for e in xs if e > GL] == xs and y < 0", {"xs": [1, 2], "GL": 0, "y": -5}),
+    (["x"], ["y", "x"], "abs(y) < x", {"x": 5, "y": 1}),
+]
+
+
+def shadowing_cases(rng, n):
+    """the function's parameter `y` / `GL` / `cl` is NOT a parameter of the condition: the condition's `y` is the global,
+    its `cl` the closure variable"""
+    for params, fparams, expr, env in SHADOWING:
+        for layout in ("oneline", "multiline"):
+            for kind in ("require", "ensure"):
+                yield {"dom": "expr", "expr": expr, "env": dict(env), "params": list(params), "fparams": list(fparams), "layout": layout, "kind": kind}
+    made = 0
+    for _ in range(n * 6):
+        if made >= n:
+            break
+        hidden = rng.sample(["y", "GL", "cl"], rng.randint(1, 2))
+        params = [p for p in ["x", "y", "xs", "s", "o", "n"] if p not in hidden]
+        c = exprprop.make_case(rng, depth=2, features=exprprop.MODEL_FEATURES, params=params, fparams=params + hidden)
+        if not c or not any(h in c["expr"] for h in hidden):
+            continue
+        for h in hidden:
+            c["env"][h] = rng.choice([3, -4, 2000, "v", [1, 2], None])
+        # keep it when PYTHON (condition parameters, closure, globals) still evaluates it falsy
+        _env, names = exprprop.names_of(c)
+        try:
+            if eval(c["expr"], dict(names)):
+                continue
+        except Exception:  # noqa: B902
+            continue
+        made += 1
+        yield c
+
+
 def cases(tier, rng):
     thorough = tier == "thorough"
     for c in exprprop.special_cases(rng):
@@ -54,6 +94,9 @@ def cases(tier, rng):
                 c["fparams"] = c["fparams"] + ["**kw"]
                 c["extra_kwargs"] = dict(("k%02d" % i, i) for i in range(rng.choice([1, 3, 60])))
             yield "extra-function-parameters", c
+    # a parameter of the FUNCTION which the condition does not take is named like a global / closure variable the condition reads
+    for c in shadowing_cases(rng, 600 if thorough else 150):
+        yield "function-parameter-named-like-a-global", c
     # the closure variable is re-bound between two violations of the same contract
     for expr in ("x > cl + 100", "cl < 0 or x > 100", "len(xs) > abs(cl) + 50", "x > 100 and cl > 0", "[cl, x] == []",
                  "all(e > cl + 100 for e in [x, y])"):
